@@ -202,7 +202,25 @@ def c05_case(draw, mode: str):
     k = len(cells)
     names = list(draw(st.lists(st.sampled_from(POOL), min_size=4, max_size=4, unique=True)))
     npairs = draw(st.integers(1, 2)) if mode == "structured" else draw(st.integers(0, 2))
-    if npairs == 0:
+    alias: List[List[Any]] = []
+    if mode == "aliasing":
+        # three slave patches of which one is *named* like the other two joined ("a" + "_" + "b" = "a_b"): patch names
+        # are arbitrary words, a corner carrying {a, b} and a corner carrying {a_b} are different sets (seeded C05_12)
+        m, s1, s2, m3 = names
+        s3 = draw(st.sampled_from(["_", "", "-", ".", ","])).join(sorted([s1, s2]))
+        names = [m, s1, s2, s3, m3]
+        pairs = [[m, s1], [m, s2], [m3, s3]]  # s3 has a master of its own: a corner with m and s3 is not self-merged
+        faces = list(_internal_faces(case["dims"], cells))
+        a, b, ax = faces[draw(st.integers(0, len(faces) - 1))] if faces else (cells[0], cells[0], 0)
+        if faces and draw(st.integers(0, 3)):
+            lo, hi = cells.index(a), cells.index(b)
+            g = draw(st.sampled_from([x for x in range(6) if x // 2 != ax]))
+            # lo | hi is the merged interface (slave s1 | master m); along one of its edges lo also carries slave s2 and
+            # hi carries slave s3: hi's corners there are on the master side of (m, s1) and must stay apart from lo's
+            alias = [[lo, 2 * ax + 1, s1], [lo, g, s2], [hi, 2 * ax, m], [hi, g, s3]]
+            if draw(st.booleans()):
+                alias = [[hi, 2 * ax, s1], [hi, g, s2], [lo, 2 * ax + 1, m], [lo, g, s3]]
+    elif npairs == 0:
         pairs: List[List[str]] = []
     elif npairs == 1:
         pairs = [[names[0], names[1]]]
@@ -224,8 +242,9 @@ def c05_case(draw, mode: str):
                 patches += [[cells.index(a), 2 * ax + 1, m], [cells.index(b), 2 * ax, s]]
             else:
                 patches += [[cells.index(a), 2 * ax + 1, s], [cells.index(b), 2 * ax, m]]
+    patches += alias
     paired = sorted({n for p in pairs for n in p})
-    for _ in range(draw(st.integers(0, 3 if mode == "structured" else 12))):
+    for _ in range(draw(st.integers(0, 3 if mode in ("structured", "aliasing") else 12))):
         name = draw(st.sampled_from(paired)) if paired and draw(st.booleans()) else draw(st.sampled_from(names))
         patches.append([draw(st.integers(0, k - 1)), draw(st.integers(0, 5)), name])
     case.pop("chops", None)
@@ -751,6 +770,10 @@ CELLS = [
     Cell("C05/partition/two-pairs-along-edge", edge_case(), check_assembly, 400, 15000,
          "2x2x2 lattice: the blocks on the slave side of two pairs are stacked along the edge where the pairs meet; names "
          "from a pool of 16 so that set iteration orders differ from alphabetical"),
+    Cell("C05/partition/aliasing-names", c05_case("aliasing"), check_assembly, 300, 10000,
+         "three slave patches, one named like the other two joined by '_', '', '-', '.' or ',': a corner carrying both "
+         "and a corner carrying the joined name are different slave sets (in 3 of 4 cases placed on the two sides of a merged "
+         "interface, where the statement forbids sharing)"),
     Cell("C05/tolerance", c05_case("tolerance"), check_assembly, 1000, 40000,
          "per-corner jitter <= 0.2*TOL must merge, per-node near-miss of 3..8*TOL must not; with random patches/pairs"),
     Cell("C05/file", c05_case("structured"), check_file, 300, 10000,
